@@ -167,13 +167,16 @@ Definition is_block_of (ks : list hkind) (n : ltree) : bool :=
                                                  (match k' with KIf => 0 | KElif => 1 | KElse => 2 | KTry => 3 | KExcept => 4 | KWhile => 5 | KFor => 6 end)) ks
   | LLeaf _ _ _ => false
   end.
+(* a column-0 statement that parse() neither takes for a target(...) directive nor filters as an import *)
+Definition top_plain (s : text) : bool := negb (top_target s) && negb (top_import s).
+
 Definition chain_ok (ns : list ltree) : bool :=
   match ns with
-  | [LLeaf _ s _] => negb (top_import s) && negb (re_def s)
-  | [LBlock _ KWhile h _ _] => negb (re_while_true h)
-  | [LBlock _ KFor _ _ _] => true
-  | LBlock _ KIf _ _ _ :: r => forallb (is_block_of [KElif; KElse]) r
-  | LBlock _ KTry _ _ _ :: r => forallb (is_block_of [KExcept]) r
+  | [LLeaf _ s _] => top_plain s && negb (re_def s) && negb (re_while_true s)
+  | [LBlock _ KWhile h _ _] => top_plain h && negb (re_while_true h)
+  | [LBlock _ KFor h _ _] => top_plain h
+  | LBlock _ KIf h _ _ :: r => top_plain h && forallb (is_block_of [KElif; KElse]) r
+  | LBlock _ KTry h _ _ :: r => top_plain h && forallb (is_block_of [KExcept]) r
   | _ => false
   end.
 
@@ -181,11 +184,12 @@ Definition wf_top (t : ltop) : bool :=
   match t with
   | LChain ns => chain_ok ns && wf_seq CNone ns
   | LMain pre h tr body =>
-      forallb junk pre && stmt_ok h && re_while_true h && trail_ok true tr && wf_seq CNone body
+      forallb junk pre && stmt_ok h && re_while_true h && top_plain h && trail_ok true tr && wf_seq CNone body
   | LDef pre h tr body =>
-      forallb junk pre && stmt_ok h && re_def h && trail_ok true tr && wf_seq CNone body
+      forallb junk pre && stmt_ok h && re_def h && top_plain h && trail_ok true tr && wf_seq CNone body
   | LImp pre s tr =>
-      forallb junk pre && stmt_ok s && top_import s && trail_ok true tr
+      (* an import line parse() filters itself, or a target(...) directive *)
+      forallb junk pre && stmt_ok s && (top_target s || top_import s) && no_cont s && trail_ok true tr
   end.
 
 (* the guard of a whole script *)
